@@ -435,6 +435,10 @@ Lemma pres_start_positive_ack_procedure_s : forall n, pres n start_positive_ack_
 Proof. unfold start_positive_ack_procedure_s; pres_all. Qed.
 #[export] Hint Resolve pres_prepare_file_data_pdu pres_prepare_metadata_pdu pres_prepare_eof_pdu
   pres_start_positive_ack_procedure_s : pres.
+(* handle_eof_sent ends the cancelled unacknowledged transaction through notice_of_completion_s (F21 repair) *)
+Lemma pres_notice_of_completion_s : forall n, pres n notice_of_completion_s.
+Proof. unfold notice_of_completion_s; pres_all. Qed.
+#[export] Hint Resolve pres_notice_of_completion_s : pres.
 Lemma pres_handle_eof_sent : forall n c, pres n (handle_eof_sent c).
 Proof. unfold handle_eof_sent; pres_all. Qed.
 #[export] Hint Resolve pres_handle_eof_sent : pres.
@@ -476,8 +480,6 @@ Lemma pres_handle_waiting_for_ack : forall n pkt, pres n (handle_waiting_for_ack
 Proof. unfold handle_waiting_for_ack; pres_all. Qed.
 Lemma pres_handle_wait_for_finish : forall n pkt, pres n (handle_wait_for_finish pkt).
 Proof. unfold handle_wait_for_finish; pres_all. Qed.
-Lemma pres_notice_of_completion_s : forall n, pres n notice_of_completion_s.
-Proof. unfold notice_of_completion_s; pres_all. Qed.
 Lemma pres_fsm_advancement_s : forall n, pres n fsm_advancement_s.
 Proof. unfold fsm_advancement_s; pres_all. Qed.
 Lemma pres_check_inserted_packet_s : forall n p, pres n (check_inserted_packet_s p).
